@@ -469,11 +469,13 @@ func (s *Session) waitIdle() {
 }
 
 // Send feeds raw bytes and waits until the server wants more input or has ended the loop.
-func (s *Session) Send(b []byte) {
+func (s *Session) Send(b []byte) { s.send(b, true) }
+
+func (s *Session) send(b []byte, first bool) {
 	if s.Ended {
 		return
 	}
-	if s.W.Cfg.App {
+	if s.W.Cfg.App && first {
 		s.appMarks = append(s.appMarks, len(s.Cli.Out))
 	}
 	select {
@@ -488,7 +490,10 @@ func (s *Session) Send(b []byte) {
 // Do sends one op.
 func (s *Session) Do(op wire.Op) {
 	s.Ops = append(s.Ops, op)
-	s.Send(wire.Encode(s.W.Cfg.Proto, op))
+	parts := wire.Segments(wire.Encode(s.W.Cfg.Proto, op), op.Seg)
+	for i, part := range parts {
+		s.send(part, i == 0)
+	}
 }
 
 // DoPipelined sends several ops in one write.
